@@ -568,7 +568,12 @@ func (m *DenseFloat32Matrix) Import(filename string) error {
       if err != nil {
         return fmt.Errorf("invalid table")
       }
-      values = append(values, float32(value))
+      x := float32(value)
+      // integers beyond 2^53 have no exact float64 representation
+      if k, err := strconv.ParseInt(fields[i], 10, 64); err == nil && k != 0 {
+        x = float32(k)
+      }
+      values = append(values, x)
     }
     rows++
   }
